@@ -61,9 +61,10 @@ def ds_term(r):
         lst(lst(dm(m) for m in b["pre"]) for b in s["B"]),
         lst("(dy2q %s, dy2q %s)" % (dylit(lo), dylit(hi)) for lo, hi in s["lam"])))
   c = case["cfg"]
-  return "chk_ds (%d)%%Z %s %s (dy2q %s) %s %s %s" % (
+  return "chk_ds (%d)%%Z %s %s (dy2q %s) %s %s %s %s" % (
       c["block"], nats(case["shape"]), TAU32, dylit(float(__import__("numpy").float32(c["meps"]))),
-      "true" if c["rel_eps"] else "false", "true" if c["graft"] == "none" else "false", lst(steps))
+      "true" if c["rel_eps"] else "false", "true" if c["graft"] == "none" else "false",
+      "true" if case.get("eager", True) else "false", lst(steps))
 
 
 def tf_term(r):
@@ -117,7 +118,11 @@ def gen_cases(ctx, n_ds, n_tf):
                rel_eps=bool(rng.below(4) != 0), eigh=bool(rng.below(2)))
     nb = n_blocks_ds(shape, b)
     ncomp = rng.rint(1, 3)
-    cases.append(dict(kind="ds", cfg=cfg, shape=shape, T=rng.rint(1, 5),
+    strict = (i % 6 == 0)
+    if strict:
+      cfg["sfreq"] = 1     # under efficient_cond the statistics are computed inside a compiled while body
+    cases.append(dict(kind="ds", cfg=cfg, shape=shape, T=rng.rint(1, 3) if strict else rng.rint(1, 5),
+                      eager=strict,
                       hist=rng.choice(["normal", "normal", "int"]),
                       scales=[rng.rint(-6, 6) for _ in range(nb)] if i % 5 else [0] * nb,
                       companions=[[rng.choice(COMP_SHAPES), rng.rint(-6, 6)] for _ in range(ncomp)],
@@ -138,7 +143,7 @@ def gen_cases(ctx, n_ds, n_tf):
              for _ in range(rng.rint(1, 3))]
     comps = [c for c in comps if sum(1 for d in c[0] if d >= b) <= 2
              and all(d % b == 0 for d in c[0] if d >= b)] or [[[b], 0]]
-    cases.append(dict(kind="tf", cfg=cfg, shape=shape, T=rng.rint(1, 5),
+    cases.append(dict(kind="tf", cfg=cfg, shape=shape, T=rng.rint(1, 5), eager=True,
                       hist=rng.choice(["normal", "normal", "int"]),
                       scales=[rng.rint(-6, 6) for _ in range(nb)] if i % 5 else [0] * nb,
                       companions=comps, seed=rng.next()))
@@ -198,6 +203,7 @@ def report(ctx, results):
              if ctx.cov["evaluations"] % 19 == 0 else None)
     c = case["cfg"]
     ctx.count("%s/block=%d" % (case["kind"], c["block"]))
+    ctx.count("%s/%s" % (case["kind"], "eager(strict bitwise)" if case.get("eager", True) else "jit(within tolerance)"))
     ctx.count("%s/rank%d" % (case["kind"], len(case["shape"])))
     ctx.count("%s/blocks=%d" % (case["kind"], len(case["scales"])))
     ctx.count("scale_spread_decades=%d" % (3 * (spread // 3)))
@@ -249,8 +255,10 @@ def setup(ctx):
       "matrix roots are oracles: per statistic (Distributed Shampoo, C01) resp. eigh + scalar root "
       "(Tearfree); theorems hold for every oracle; padding invariance of the root "
       "(crop (root (pad M)) = root M, C01 masked_closed) and unbatch o batch = id (C13) are hypotheses",
-      "blocked vs separate: statistics and preconditioners / roots must be bitwise equal (same flat "
-      "statistics list, same vmapped batch); updates within 2^-17 (f32) / 2^-40 (f64) * (4 + amplification) "
+      "blocked vs separate, op-by-op execution (every sixth Distributed Shampoo case, with "
+      "statistics_compute_steps = 1, and all Tearfree cases): statistics and preconditioners / roots must be bitwise equal (same flat statistics list, same "
+      "vmapped batch); under jax.jit (XLA fuses the two programs differently) statistics within 2^-17 "
+      "relative and preconditioners within the conditioning slack below; updates within 2^-17 (f32) / 2^-40 (f64) * (4 + amplification) "
       "* running block scale, bitwise agreement counted",
       "with companion leaves: statistics bitwise; Distributed Shampoo preconditioners within "
       "(2^-17 + 16 n u32 kappa) * max entry, kappa = condition number of the damped statistic from "
@@ -278,7 +286,7 @@ def run(ctx):
   setup(ctx)
   quick = ctx.tier == "quick"
   corpus = load_corpus()
-  cases = corpus + gen_cases(ctx, 84 if quick else 840, 48 if quick else 480)
+  cases = corpus + gen_cases(ctx, 60 if quick else 600, 30 if quick else 300)
   ctx.log("%d cases (%d from corpus)" % (len(cases), len(corpus)))
   results = run_impl(cases)
   ctx.log("implementation done")
